@@ -288,6 +288,12 @@ fn gen_history(r: &mut Rng, budget: u64) -> Vec<Op> {
         }
     }
     ops.push(Op::Check(r.next() % 100_000));
+    if budget > 1 {
+        // searching: a key handle early, a check in the middle (so that the last restore goes into a used backend)
+        ops.insert(ops.len().min(2), Op::RenewKey);
+        let mid = ops.len() / 2;
+        ops.insert(mid, Op::Check(r.next() % 100_000));
+    }
     ops
 }
 
@@ -607,6 +613,8 @@ struct Ctx {
     model_fails: u64,
     oracle_failed: bool,
     counter: u64,
+    /// > 1 while the check script searches for a failing input: bias toward the situations the oracle needs
+    budget: u64,
 }
 
 impl Ctx {
@@ -1040,7 +1048,7 @@ impl Hist {
         let mut kept: Option<(Backend, PathBuf)> = None;
         for (cname, comp, file) in [("plain", BackupCompression::NoCompression, &plain), ("gzip", BackupCompression::Gzip, &gz)] {
             // fresh, or the backend restored at the previous check
-            let reuse = cname == "plain" && self.prev_b.is_some() && r.chance(1, 2);
+            let reuse = cname == "plain" && self.prev_b.is_some() && (ctx.budget > 1 || r.chance(1, 2));
             let (be_b, path_b) = if reuse {
                 ctx.rep.count("restore-into:previous-restore");
                 self.prev_b.take().ok_or("no previous")?
@@ -1770,6 +1778,7 @@ fn main() {
         model_fails: 0,
         oracle_failed: false,
         counter: 0,
+        budget: args.budget,
     };
     let replay_ops: Option<Vec<Op>> = args.replay.as_ref().and_then(|p| {
         let v: J = serde_json::from_str(&std::fs::read_to_string(p).ok()?).ok()?;
@@ -1781,7 +1790,8 @@ fn main() {
             ctx.model_fail("history-aborted", &ops, "the history runs".into(), e);
         }
     } else {
-        let n = args.cases(5, 70);
+        // a search (budget > 1) is bounded by the check script's timeout: cap the number of histories
+        let n = if args.budget > 1 { args.cases(5, 70).min(if args.thorough() { 160 } else { 60 }) } else { args.cases(5, 70) };
         for i in 0..n {
             let mut r = Rng::for_case(args.seed, i);
             let ops = gen_history(&mut r, args.budget);
@@ -1810,6 +1820,7 @@ fn main() {
                             model_fails: 0,
                             oracle_failed: false,
                             counter: ctx.counter + 1000 * (26 - budget),
+                            budget: 1,
                         };
                         let _ = run_history(&mut sub, cand);
                         sub.rep.failures.iter().any(|x| x.kind == "impl-vs-oracle" && x.class == class)
